@@ -1187,7 +1187,9 @@ class DomainMapping(CanBehaveLikeAVariable[T], ABC):
         self._eval_parent_ = parent
 
         if self._id_ in sources:
-            yield OperationResult(sources, self._is_false_, self)
+            yield OperationResult(
+                sources, self._falsity_as_used_here_(sources[self._id_]), self
+            )
             return
 
         yield from (
@@ -1208,13 +1210,25 @@ class DomainMapping(CanBehaveLikeAVariable[T], ABC):
         :param current_value: The current value of this operation that is derived from the child result.
         :return: The operation result.
         """
-        if isinstance(self._parent_, LogicalOperator) or self is self._conditions_root_:
-            self._is_false_ = not bool(current_value)
         return OperationResult(
             {**child_result.bindings, self._id_: current_value},
-            self._is_false_,
+            self._falsity_as_used_here_(current_value),
             self,
         )
+
+    def _falsity_as_used_here_(self, value: Any) -> bool:
+        """
+        The truth of the value only matters where this expression stands as a condition. As an operand a falsy value
+        is a value like any other, whatever an earlier use of this node as a condition found.
+
+        :param value: The current value of this expression.
+        :return: Whether the result that carries the value is to be flagged false.
+        """
+        is_false = False
+        if isinstance(self._parent_, LogicalOperator) or self is self._conditions_root_:
+            is_false = not bool(value)
+            self._is_false_ = is_false
+        return is_false
 
     @abstractmethod
     def _apply_mapping_(self, value: HashedValue) -> Iterable[HashedValue]:
